@@ -130,10 +130,23 @@ Definition render_router (r : router_t) : res json :=
   end.
 
 (* ---------------------------------------------------------------- nodes.py *)
-(* get_exits(): the default exit of a basic node, the categories' exits of a router node *)
+(* `if category.get_exit() not in exits: exits.append(...)`: each Exit object once, at the place
+   of its first category.  Categories of a loaded router get their Exit from the node's exit list
+   by uuid (find_exit: the first with that uuid), so "the same object" is "the same uuid". *)
+Fixpoint uniq_exits (l : list exit_t) : list exit_t :=
+  match l with
+  | [] => []
+  | e :: r => e :: filter (fun x => negb (json_eqb (e_uuid x) (e_uuid e))) (uniq_exits r)
+  end.
+
+(* get_exits(): the default exit of a basic node, the categories' exits of a router node — one
+   entry per category before the repair "fix: an exit shared by several categories of a router is
+   rendered once", each exit once since.  The regenerated probe [router_lists_shared_exit_once]
+   (Gen/Tables.v) tells which code is under check. *)
 Definition exits_of (n : node_t) : list exit_t :=
   match n_router n with
-  | Some r => map c_exit (categories_of r)
+  | Some r => let l := map c_exit (categories_of r) in
+              if router_lists_shared_exit_once then uniq_exits l else l
   | None => match n_default_exit n with Some e => [e] | None => [] end
   end.
 
